@@ -12,7 +12,7 @@ class Crate:
     def __init__(self, root, tag):
         self.root = root; shutil.rmtree(root, ignore_errors=True); self.w = os.path.join(root, 'w'); os.makedirs(os.path.join(self.w, 'src')); os.makedirs(os.path.join(self.w, 'deps')); os.makedirs(os.path.join(self.w, 'out')); os.makedirs(os.path.join(self.w, 'native'))
         self.sc = Sc(os.path.join(root, 'sc'), tag)
-        self.files = {'src/lib.rs': 'mod m;\nextern "C" { fn answer() -> u32; }\npub fn n() -> u32 { unsafe { answer() } }\npub fn f() -> u32 { m::g() + dep::d() + DATA.len() as u32 + env!("MYVAR").len() as u32 + extra() }\nconst DATA: &str = include_str!("data.txt");\n#[cfg(feature = "x")] fn extra() -> u32 { 10 }\n#[cfg(not(feature = "x"))] fn extra() -> u32 { 0 }\n',
+        self.files = {'src/lib.rs': 'mod m;\nextern "C" { fn answer() -> u32; }\npub fn n() -> u32 { unsafe { answer() } }\npub fn f() -> u32 { m::g() + dep::d() + DATA.len() as u32 + env!("MYVAR").len() as u32 + option_env!("CARGO_REGISTRIES_ALT_INDEX").map_or(7, |s| s.len() as u32 * 3) + option_env!("CARGO_PKG_NAME").map_or(5, |s| s.len() as u32 * 11) + extra() }\nconst DATA: &str = include_str!("data.txt");\n#[cfg(feature = "x")] fn extra() -> u32 { 10 }\n#[cfg(not(feature = "x"))] fn extra() -> u32 { 0 }\n',
                       'src/m.rs': 'pub fn g() -> u32 { 1 }\n', 'src/data.txt': 'hello\n', 'deps/dep.rs': 'pub fn d() -> u32 { 5 }\n'}
         for k, v in self.files.items(): self.write(k, v)
         self.env = {'MYVAR': 'abc'}; self.cfgs = ['feature="x"', 'feature="y"']; self.build_dep(); self.native_form = '-L native'; self.build_native(42)
@@ -34,17 +34,29 @@ class Crate:
         return ['rustc', '--crate-name', 'top', '--crate-type', 'lib', '--edition=2021', '--emit=dep-info,metadata,link', '-C', 'metadata=abc', '-C', 'extra-filename=-abc',
                 'src/lib.rs', '--out-dir', 'out'] + cfg + ext + self.native_form.split() + ['-l', 'static=answer']
 
-def run(root, tag, seed, n_req):
+ENV_SCRIPT = [('CARGO_REGISTRIES_ALT_INDEX', 'a'), ('CARGO_REGISTRIES_ALT_INDEX', 'bbb'), ('CARGO_REGISTRIES_ALT_INDEX', None), ('CARGO_PKG_NAME', 'x'), ('CARGO_PKG_NAME', 'yy'), ('MYVAR', 'zzzz')]
+
+def run(root, tag, seed, n_req, script=()):
     rng = random.Random(seed); c = Crate(root, tag); fails = []; trace = []; reqs = hits = misses = 0; seen = set()
     c.sc.start()
     try:
         for i in range(n_req):
             k = rng.randrange(11) if i else 8
+            forced = script[i - 1] if 0 < i <= len(script) else None
+            if forced: k = 2
             note = {0: 'edit module', 1: 'edit include_str! file', 2: 'change env! variable', 3: 'toggle a cfg feature', 4: 'edit the extern crate', 5: 'reorder --cfg', 6: 'reorder --extern/-L', 7: 'edit lib.rs', 8: 'no change', 9: 'rebuild the static library with new contents', 10: 'switch -L form (plain / native=)'}[k]
             order = 0
             if k == 0: c.write('src/m.rs', 'pub fn g() -> u32 { %d }\n' % rng.randrange(2, 99))
             elif k == 1: c.write('src/data.txt', 'hello %d\n' % rng.randrange(99))
-            elif k == 2: c.env = {'MYVAR': 'v%d' % rng.randrange(99)}
+            elif k == 2:
+                # variables read through env!/option_env! reach the key as env-deps of rustc's dep-info, whatever their name class
+                # (plain, CARGO_PKG_*, and CARGO_REGISTRIES_* which the blanket CARGO_* hashing leaves out); set, change or unset
+                var = forced[0] if forced else rng.choice(['MYVAR', 'CARGO_REGISTRIES_ALT_INDEX', 'CARGO_PKG_NAME'])
+                e = dict(c.env)
+                if forced: (e.pop(var, None) if forced[1] is None else e.__setitem__(var, forced[1]))
+                elif var != 'MYVAR' and var in e and rng.random() < 0.3: del e[var]
+                else: e[var] = 'v' * rng.randrange(1, 6)
+                c.env = e; note = f'change {var} read by the crate'
             elif k == 3: c.cfgs = ['feature="y"'] if 'feature="x"' in c.cfgs else ['feature="x"', 'feature="y"']
             elif k == 4: c.write('deps/dep.rs', 'pub fn d() -> u32 { %d }\n' % rng.randrange(6, 99)); c.build_dep()
             elif k == 5: order = 1
